@@ -21,7 +21,7 @@ From Coq Require Import List NArith Bool Arith Lia.
 From Scion Require Import Lib.Check Model.Router Model.Network Model.Prov.
 From Scion Require Import Proofs.ProvFacts Proofs.Forward Proofs.Tamper.
 Import ListNotations.
-Import Router Network Prov.
+Import Scion.Model.Router.Router Network Prov.
 Local Open Scope N_scope.
 
 (** Reduction: for every valid path, every position and every changed protected
@@ -79,13 +79,13 @@ Proof. unfold toy. intros H. inversion H. reflexivity. Qed.
 Lemma toy_prefix k s ts e i g : mac_prefix (toy k s ts e i g) = 0.
 Proof. reflexivity. Qed.
 
-Theorem C04_toy_no_forgery : forall t p f idx v,
-  good toy t p -> changed f idx v (render p (mkPP 0 0 0 0 [] [] 0 None) 0 false) = true \/ True ->
-  (depends_on p f idx < nhops p)%nat ->
+Theorem C04_toy_no_forgery : forall t now p pp f idx v,
+  good toy t p -> endpoints_ok t p pp = true -> all_unexpired now p = true ->
+  changed f idx v (render p pp 0 false) = true ->
   ~ forged toy t p f idx v.
 Proof.
-  intros t p f idx v HG _ Dl (s' & ts' & M & Ne & Ts & S).
-  set (dd := depends_on p f idx) in *. fold (Tamper.d p f idx) in *.
+  intros t now p pp f idx v HG Hep Hexp Hch (s' & ts' & M & Ne & Ts & S).
+  pose proof (d_lt toy t now p pp HG Hep Hexp f idx v Hch) as Dl.
   pose proof (mac_fact _ _ _ HG (Tamper.d p f idx) Dl) as MF.
   assert (Sg : sigma p (Tamper.d p f idx) = 0) by (unfold sigma; rewrite MF; apply toy_prefix).
   assert (Px : mac_prefix (h_mac (hq p f idx v)) = 0) by (rewrite M; apply toy_prefix).
@@ -93,7 +93,7 @@ Proof.
                (is_hop_field f = false /\ s' = i_segid (iq p f idx v 0 false))).
   { destruct S as [S|[S|S]]; auto. left. rewrite S, Sg, Px. now rewrite !N.lxor_0_r. }
   clear S. apply Ne.
-  destruct (hq_cases p f idx v) as [Hm|(Hf & He & Hi & Hg)].
+  destruct (hq_cases p pp f idx v Hch) as [Hm|(Hf & He & Hi & Hg)].
   - (* the carried MAC is the original one: by injectivity the inputs coincide *)
     rewrite Hm, MF in M. apply toy_inj in M. inversion M. reflexivity.
   - (* the MAC bytes were altered: expiry and interfaces are the original ones *)
@@ -110,8 +110,7 @@ Corollary C04_toy_unconditional : forall t now p pp f idx v,
 Proof.
   intros t now p pp f idx v HG Hep Hexp Hch.
   apply C04_first_dependent_router; try assumption.
-  apply C04_toy_no_forgery; [assumption|now right|].
-  apply (d_lt toy t p pp HG f idx v Hch).
+  now apply (C04_toy_no_forgery t now p pp).
 Qed.
 Print Assumptions C04_toy_unconditional.
 
